@@ -450,10 +450,13 @@ class Account:
             return ""
         try:
             Mnemonic().mnemonic_decode(seed)
-        except IndexError:
-            # failed to decode the seed, this either means it decrypted and is invalid
-            # or that we hit an edge case where an incorrect password gave valid padding
-            raise ValueError("Failed to decode seed.")
+        except (IndexError, ValueError):
+            # not made of word list words: either an incorrect password gave valid padding, or this
+            # is one of the free-form seeds accounts can be created from (capital letters, other
+            # languages). The encrypted private key (Base58Check) decides in decrypt(); without
+            # one there is nothing else to check the password against, so refuse.
+            if not self.private_key_string:
+                raise ValueError("Failed to decode seed.")
         return seed
 
     def encrypt(self, password: str) -> bool:
